@@ -25,7 +25,7 @@ RULE = ('cases = corpus texts (as C01: whole/window, 0-3 small edits, token soup
         'text digest.')
 ASSUMPTIONS = c01.ASSUMPTIONS + ['sort key transcribed from the documented order',
                                  'dict-key/file-name completions recognised by bracket/quote context']
-SIZES = {'quick': (480, 24), 'thorough': (9000, 40)}
+SIZES = {'quick': (480, 24), 'thorough': (3000, 40)}
 TIMEOUT = c01.TIMEOUT
 
 
